@@ -862,6 +862,9 @@ func (s *Sym) evCall(env *Env, x ECall) TV {
 		if a[0].GT == nil && a[0].S == "Str" {
 			a[0].GT = types.Typ[types.String]
 		}
+		if a[0].GT == nil && a[0].S == "Int" {
+			a[0].GT = types.Typ[types.Int] // len(...), integer literals
+		}
 		if a[0].GT == nil {
 			bad("boxed() needs a value with a Go type")
 		}
